@@ -85,33 +85,35 @@ def lowlink(facts):
                              "after a child has been finished by low[child]; the cut test compares low[child] with disc[u]")
     for b in o.need_fn(facts, "algo::articulation_points::_dfs"):
         n = 0
-        for i, t in calls_named(b, ("core::cmp::min",)):
-            if len(t["args"]) != 2:
+        # every update of low[..]: a store through IndexMut::index_mut(&mut tracker.low, u) whose value comes from low[] / disc[] - written as
+        # low[u] = min(low[u], x) or as `if x < low[u] { low[u] = x }`
+        for i, t in calls_named(b, ("index_mut",)):
+            if not t["args"] or ("field", "low") not in leaves(b.expr(t["args"][0], 8)) or t["dest"]["p"]:
                 continue
-            e0, e1 = b.expr(t["args"][0], 10), b.expr(t["args"][1], 10)
-
-            def arr(e):
-                fs = [x[1] for x in leaves(e) if x[0] == "field" and x[1] in ("low", "disc", "parent")]
-                return sorted(set(fs))
-            a0, a1 = arr(e0), arr(e1)
-            if a0 != ["low"] and a1 == ["low"]:
-                a0, a1 = a1, a0         # min is symmetric
-            if a0 != ["low"]:
-                continue
-            n += 1
-            visited_true = False
-            for (e, truth, src) in dom_atoms(b, i):
-                c = call_atom(e, ("contains",))
-                if c is not None and truth is True:
-                    visited_true = True
-            if visited_true:
-                o.check(b, "back-edge", t["line"], a1 == ["disc"], "visited non-parent neighbour: low[u] = min(low[u], disc[v])",
-                        "on an edge to an already visited vertex low[u] is lowered by %s[v] instead of disc[v]: low values leak across blocks and "
-                        "cut vertices lying on a cycle are missed" % (a1[0] if a1 else "?"))
-            else:
-                o.check(b, "tree-edge-return", t["line"], a1 == ["low"], "finished child: low[u] = min(low[u], low[child])",
-                        "after finishing a child low[u] is lowered by %s[child] instead of low[child]" % (a1[0] if a1 else "?"))
-        o.check(b, "updates", b.line, n == 2, "2 low-link updates", "expected 2 low-link updates (back edge, finished child), found %d" % n)
+            d = t["dest"]["l"]
+            vals = []
+            for i2, j2, st in b.stmts():
+                if st["lhs"]["l"] == d and st["lhs"]["p"] == ["*"] and st["rv"]["k"] == "use":
+                    vals.append((i2, st, b.expr(st["rv"]["o"][0], 12)))
+            for (i2, st, e) in vals:
+                arrs = sorted({x[1] for x in leaves(e) if x[0] == "field" and x[1] in ("low", "disc")})
+                if not arrs:
+                    continue            # the initial low[u] = time
+                src = "disc" if "disc" in arrs else "low"
+                n += 1
+                visited_true = False
+                for (ae, truth, s_) in dom_atoms(b, i2):
+                    c = call_atom(ae, ("contains",))
+                    if c is not None and truth is True:
+                        visited_true = True
+                if visited_true:
+                    o.check(b, "back-edge", st["line"], src == "disc", "visited non-parent neighbour: low[u] lowered by disc[v]",
+                            "on an edge to an already visited vertex low[u] is lowered by %s[v] instead of disc[v]: low values leak across blocks and "
+                            "cut vertices lying on a cycle are missed" % src)
+                else:
+                    o.check(b, "tree-edge-return", st["line"], src == "low", "finished child: low[u] lowered by low[child]",
+                            "after finishing a child low[u] is lowered by %s[child] instead of low[child]" % src)
+        o.check(b, "updates", b.line, n >= 2, "%d low-link updates" % n, "expected 2 low-link updates (back edge, finished child), found %d" % n)
     o.r.floor = 3
     return o.r
 
